@@ -109,17 +109,21 @@ fn search_encode(rng: &mut Rng, budget: usize) -> Option<Cex> {
 }
 
 // ------------------------------------------------------------------ frame decode
-fn classify_real(b: &[u8]) -> String {
-    match catch_unwind(AssertUnwindSafe(|| Frame::from_bytes(b))) {
+pub fn classify_result(r: std::thread::Result<Result<Frame<'_>, FrameError>>) -> String {
+    match r {
         Err(_) => "panic".into(),
         Ok(Ok(f)) => format!("Ok({:04x},{:02x},{})", f.address().0, f.message_type().0, hex(f.data())),
         Ok(Err(FrameError::InvalidFrame { .. })) => "Invalid".into(),
         Ok(Err(FrameError::FrameDataMismatch { expected, actual, .. })) => format!("Mismatch({},{})", expected, actual),
         Ok(Err(FrameError::BadChecksum { expected, actual, .. })) => format!("BadChecksum({:02x},{:02x})", expected, actual),
+        Ok(Err(FrameError::Io { .. })) => "Io".into(),
         Ok(Err(e)) => format!("OtherError({:?})", e),
     }
 }
-fn classify_ref(b: &[u8]) -> String {
+fn classify_real(b: &[u8]) -> String {
+    classify_result(catch_unwind(AssertUnwindSafe(|| Frame::from_bytes(b))))
+}
+pub fn classify_ref(b: &[u8]) -> String {
     match ref_dec(b) {
         DecV::Ok(f) => format!("Ok({:04x},{:02x},{})", f.addr, f.typ, hex(&f.data)),
         DecV::Invalid => "Invalid".into(),
@@ -136,7 +140,26 @@ fn check_decode(b: &[u8]) -> Option<Cex> {
     }
 }
 
+/// Decoding is a function of its argument: whatever was decoded (and rejected) before on this thread, `b` decodes as
+/// the reference says.  Input form for replay: hex(previous) '>' hex(b).
+fn check_decode_after(prev: &[u8], b: &[u8]) -> Option<Cex> {
+    let _ = catch_unwind(AssertUnwindSafe(|| Frame::from_bytes(prev).map(|_| ())));
+    let (r, w) = (classify_real(b), classify_ref(b));
+    if r != w {
+        Some(Cex { domain: "frame-decode", input: format!("{}>{}", hex(prev), hex(b)), expected: format!("{} (after decoding the first string)", w), actual: r })
+    } else {
+        None
+    }
+}
+
 fn search_decode(rng: &mut Rng, budget: usize) -> Option<Cex> {
+    // no hidden state: a rejected string of each class, then valid frames (and the other way round)
+    {
+        let good: [&[u8]; 3] = [b":0000000000", b":01007F02FF7F\r\n", b":1012340000112233445566778899AABBCCDDEEFF3A"];
+        let prevs: [&[u8]; 8] = [b":00007F02FF", b":0000000001", b":0100000000", b"garbage", b":01007F02FF7F\r\n\r\n", b":0000000000", b"", b":02000000AA"];
+        for p in prevs { for g in good { if let Some(c) = check_decode_after(p, g) { return Some(c); } } }
+        for p in prevs { for q in prevs { if let Some(c) = check_decode_after(p, q) { return Some(c); } } }
+    }
     // structural alphabet, exhaustive short strings around the valid empty-data skeleton
     let alpha: [u8; 12] = [b':', b'0', b'1', b'9', b'a', b'F', b'f', b'G', b'\r', b'\n', 0, 0xFF];
     for len in 0..=4usize {
@@ -352,6 +375,23 @@ fn search_message(_rng: &mut Rng) -> Option<Cex> {
         msgs.push(Message::PixelsComplete(Address(a))); msgs.push(Message::DataChunksSent(ChunkCount(a)));
         for &n in &[0usize, 1, 2, 16, 255] { msgs.push(Message::SendData(Offset(a), Data::try_new(arr[..n].to_vec()).unwrap())); }
     }
+    // the wire trip does not depend on what was decoded before (a frame rejected for its checksum, for its length, garbage)
+    for m in msgs.iter().step_by(7) {
+        for prev in [&b":00007F02FF"[..], &b":0000000001"[..], &b":0100000000"[..], &b"?"[..]] {
+            let input = format!("{:?} after Frame::from_bytes rejected {:?}", m, String::from_utf8_lossy(prev));
+            let r = catch_unwind(AssertUnwindSafe(|| {
+                let _ = Frame::from_bytes(prev).map(|_| ());
+                let wire = Frame::from(m.clone()).to_bytes_with_newline();
+                let back = Frame::from_bytes(&wire).map(Message::from);
+                match back { Ok(b) if &b == m => None, other => Some(format!("{:?}", other)) }
+            }));
+            match r {
+                Err(_) => return Some(Cex { domain: "message", input, expected: "no panic".into(), actual: "panic".into() }),
+                Ok(Some(a)) => return Some(Cex { domain: "message", input, expected: "equal message after the wire trip".into(), actual: a }),
+                Ok(None) => {}
+            }
+        }
+    }
     for m in msgs {
         let input = format!("{:?}", m);
         let r = catch_unwind(AssertUnwindSafe(|| {
@@ -528,7 +568,7 @@ fn main() {
         let dom = args[2].as_str();
         let inp = args[3].as_str();
         let r = match dom {
-            "frame-decode" => check_decode(&unhex(inp)),
+            "frame-decode" => match inp.split_once('>') { Some((p, b)) => check_decode_after(&unhex(p), &unhex(b)), None => check_decode(&unhex(inp)) },
             "frame-encode" => { let p: Vec<&str> = inp.split(':').collect(); if p.len() == 3 { check_encode(u16::from_str_radix(p[0], 16).unwrap(), u8::from_str_radix(p[1], 16).unwrap(), &unhex(p[2])) } else { search_encode(&mut rng, 0) } }
             "page" => { let t: Vec<&str> = inp.split_whitespace().collect(); let d: Vec<u32> = t[1].split('x').map(|x| x.parse().unwrap()).collect(); check_page(t[3].parse().unwrap_or(0), d[0], d[1]) }
             "message" => search_message(&mut rng),
